@@ -321,6 +321,29 @@ func genTable(r *Rng, router int, maxWs int) (TableSpec, []genRoute) {
 		}
 		seenRoot[root], seenRoot[key] = true, true
 		sv := ServiceSpec{Root: root}
+		if r.Pct(12) {
+			// a ladder: one method, an all-literal path and the same path with its tokens turned into variables from
+			// the right, one more at each step; conditions on some (a failing condition must only remove its own route)
+			n := 2 + r.Intn(2)
+			lits := []tplTok{}
+			for k := 0; k < n; k++ {
+				lits = append(lits, tplTok{kind: 0, text: r.Pick(litPool)})
+			}
+			method := r.Pick(methodPool[:5])
+			for step := 0; step <= n; step++ {
+				toks := append([]tplTok{}, lits...)
+				for k := n - step; k < n; k++ {
+					toks[k] = tplTok{kind: 1, name: "l" + itoa(k)}
+				}
+				rs := RouteSpec{ID: id, Method: method, Rel: renderPath(toks, r)}
+				id++
+				if r.Pct(40) {
+					rs.Conds = []bool{r.Pct(50)}
+				}
+				sv.Routes = append(sv.Routes, rs)
+				all = append(all, genRoute{spec: rs, toks: append(append([]tplTok{}, rootToks...), toks...)})
+			}
+		}
 		nr := r.Intn(7)
 		for i := 0; i < nr; i++ {
 			var toks []tplTok
@@ -590,7 +613,12 @@ func genRoute_(r *Rng) Sx {
 	}
 	t, routes := genTable(r, router, 4)
 	q := genRequest(r, routes)
-	return L(t.Sx(), q.Sx(), B(r.Pct(15))) // third: trace logging on (to a discarding logger)
+	// third: trace logging on (to a discarding logger); fourth (half of the cases): another request served on the same
+	// container first - the answer to the main request must not depend on it
+	if r.Bool() {
+		return L(t.Sx(), q.Sx(), B(r.Pct(15)), genRequest(r, routes).Sx())
+	}
+	return L(t.Sx(), q.Sx(), B(r.Pct(15)))
 }
 
 // ---------- building the real container ----------
@@ -841,6 +869,12 @@ func runRoute(raw Sx) (Sx, Sx) {
 	}
 	pr := &probe{}
 	c, kept, _ := buildContainer(t, pr)
+	var warm Sx = Ls{}
+	if len(sxList(raw)) > 3 {
+		warm = sxNth(raw, 3)
+		dispatchObs(c, pr, sxReq(warm)) // served first; must leave no trace
+		*pr = probe{}
+	}
 	obs := dispatchObs(c, pr, q)
 	// the same request on the same container with trace logging flipped: the same answer (C19)
 	restful.EnableTracing(!trace)
@@ -853,6 +887,10 @@ func runRoute(raw Sx) (Sx, Sx) {
 	}
 	o := NewOracles()
 	tabulateRouting(o, kept, q.Path)
+	if len(sxList(warm)) > 0 {
+		tabulateRouting(o, kept, sxReq(warm).Path)
+		return L(o.Sx(), kept.Sx(), q.Sx(), B(trace), warm), append(append(Ls{}, sxList(obs)...), same)
+	}
 	return L(o.Sx(), kept.Sx(), q.Sx(), B(trace)), append(append(Ls{}, sxList(obs)...), same)
 }
 
